@@ -135,7 +135,10 @@ def run(repo, tier):
     for pe in model.models:
         p = pe.p
         asm = pe.of('ASM')
-        ws = pe.of('OPEN', 'HEX')
+        # what changes an existing file: an open that truncates (mode w; unknown mode counted), a write through a handle that was
+        # opened without truncating (a / r+ / x), the hex conversion
+        truncating = lambda e: e.mode is None or 'w' in e.mode
+        ws = sorted([e for e in pe.of('OPEN') if truncating(e)] + [e for e in pe.of('WRITE') if not truncating(e.open)] + pe.of('HEX'), key=lambda e: e.idx)
         first_w = min([e.idx for e in ws], default=None)
         unknown_w = pe.of('WRITE?')
         # ---- R17.1 no-clobber ------------------------------------------------------------------------------------
@@ -151,7 +154,7 @@ def run(repo, tier):
         for e in ws:
             n_w += 1
             ok = bool(asm) and asm[0].idx < e.idx
-            rep.check(ok, 'R17.1.asm-first', 'assemble() completes before {} is written'.format(show(e.path)[:60] if e.kind == 'OPEN' else 'the hex file'),
+            rep.check(ok, 'R17.1.asm-first', 'assemble() completes before {} is written'.format(show(e.path)[:60] if e.kind == 'OPEN' else (show(e.open.path)[:60] if e.kind == 'WRITE' else 'the hex file')),
                       lambda e=e: Finding('R17.1.asm-first', 'cli_main', e.node, 'an output file is opened before the program has been assembled: a failing assembly clobbers it', line=e.node.lineno))
         if ws and not any(e.idx > first_w for e in pe.of('FAIL')):
             rep.ok('R17.1.no-clobber', 'no failing exit after the first write on any path')
@@ -194,7 +197,13 @@ def run(repo, tier):
         if unknown_w:
             undecided.append('a write through something that is not a handle of a recognised open(): {}'.format(show(unknown_w[0].recv)[:60]))
         # exactness of the binary
-        outs = [e for e in opens if e.path == o_out]
+        def final(es):
+            """The opens that determine what the file finally holds: from the last truncating open on; an open that neither
+            truncates nor is written through (a writability probe) changes nothing."""
+            es = [e for e in es if truncating(e) or any(w.open is e for w in pe.of('WRITE'))]
+            last = max([k for k, e in enumerate(es) if truncating(e)], default=0)
+            return es[last:]
+        outs = final([e for e in opens if e.path == o_out])
         if not outs:
             undecided.append('no recognised open() of the -o path on a successful path')
         for e in outs:
@@ -221,7 +230,7 @@ def run(repo, tier):
                          instance='the -o handle receives the value returned by assemble(), once')
         # labels
         table = a.kw.get('labels')
-        labs = [e for e in opens if e.path == o_lab]
+        labs = final([e for e in opens if e.path == o_lab])
         if given(p, o_lab) is True and not labs:
             undecided.append('-l was given but no recognised open() of its path follows')
         for e in labs:
